@@ -121,6 +121,7 @@ func init() {
 		props["C01"] = propRun{rule: base.rule + "; denotation stage: command lines made only of occurrences of declared options (all spellings, clusters, after command words, values with '=', ':', leading dashes, quotes, blanks), whose meaning (last value / every value in order / last value per key / flag true / untouched otherwise) is computed independently and compared with the fields after a successful parse", run: func(c *Ctx) {
 			base.run(c)
 			checkC01Denote(c, budget(c.Tier, 1500, 60000))
+			checkC01TextTypes(c, budget(c.Tier, 150, 5000))
 		}}
 	}
 	parseProp("C03", caseRule+"emphasis: pass-through options, terminators, weird tokens", 2500, 100000, func(p *Profile) {
@@ -187,6 +188,7 @@ func init() {
 			checkC07Renamed(c, budget(c.Tier, 300, 10000))
 			checkC07CommandNamespace(c, budget(c.Tier, 200, 6000))
 			checkC07DigitOption(c, budget(c.Tier, 200, 6000))
+			checkC07Repeated(c, budget(c.Tier, 200, 6000))
 		}}
 	}
 	parseProp("C08", caseRule+"emphasis: deep command trees, aliases, name clashes between levels", 2500, 100000, func(p *Profile) {
@@ -236,6 +238,7 @@ func init() {
 			base.run(c)
 			checkC10Bind(c, budget(c.Tier, 1500, 60000))
 			checkC10Levels(c, budget(c.Tier, 600, 30000))
+			checkC10SliceUnmarshaler(c, budget(c.Tier, 150, 5000))
 		}}
 	}
 }
@@ -317,6 +320,7 @@ func init() {
 			checkC13(c, budget(c.Tier, 600, 60000))
 			checkIniLateSection(c, budget(c.Tier, 150, 5000), "C13")
 			checkC13CommandCollection(c, budget(c.Tier, 150, 5000))
+			checkC13CommandNamespace(c, budget(c.Tier, 150, 5000))
 			runMixedCases(c, budget(c.Tier, 150, 15000), defaultProfile, []string{"iniparse", "parse"}, 3, func(cr *CaseResult) { oracleNoPanic(c, cr) })
 		}}
 	props["C05"] = propRun{
@@ -336,6 +340,7 @@ func init() {
 		run: func(c *Ctx) {
 			checkC15(c, budget(c.Tier, 150, 6000), budget(c.Tier, 8, 32))
 			checkC15Invalid(c, budget(c.Tier, 150, 6000), budget(c.Tier, 8, 32))
+			checkC15StructOption(c, budget(c.Tier, 40, 1500))
 		}}
 }
 
